@@ -111,6 +111,10 @@ structure Ghost where
   discarded : List Cmd := []     -- drained while no reporter was installed (`handle_commands` returns early)
   lostAtExit : List Cmd := []    -- parked values that did not fit into the ring when `Sender::drop` ran (finding D3)
   reported : List Record := []   -- every record handed to `Reporter::report`, newest report first
+  -- per-thread order (both newest first): what each thread's channel took, what the collector popped from each
+  -- thread's ring
+  acceptedBy : List (Nat × Cmd) := []
+  drainedBy : List (Nat × Cmd) := []
 deriving Repr, Inhabited
 
 structure Sys where
@@ -285,11 +289,13 @@ def Sys.sendCmd (s : Sys) (t : Nat) (cmd : Cmd) (forced : Bool) : Sys :=
       let th := s.th t
       if forced then
         let (r, pend) := r.forceSend th.pending cmd
-        ((s.setRing t r).setTh t { th with pending := pend }).withG { s.g with accepted := cmd :: s.g.accepted }
+        ((s.setRing t r).setTh t { th with pending := pend }).withG
+          { s.g with accepted := cmd :: s.g.accepted, acceptedBy := (t, cmd) :: s.g.acceptedBy }
       else
         let (r, pend, ok) := r.send th.pending cmd
         ((s.setRing t r).setTh t { th with pending := pend }).withG
-          (if ok then { s.g with accepted := cmd :: s.g.accepted } else { s.g with refused := cmd :: s.g.refused })
+          (if ok then { s.g with accepted := cmd :: s.g.accepted, acceptedBy := (t, cmd) :: s.g.acceptedBy }
+           else { s.g with refused := cmd :: s.g.refused })
 
 /-- `GlobalCollect::submit_spans` -/
 def Sys.submitSpans (s : Sys) (t : Nat) (spans : SpanSet) (token : Token) : Sys :=
@@ -457,10 +463,19 @@ def drainAll : List (Nat × Ring Cmd) → List (Nat × Ring Cmd) × List Cmd
     let (kept, buf) := drainAll rest
     (if keep then (t, r') :: kept else kept, cmds ++ buf)
 
+/-- ghost: what `drainAll` pops, tagged with the thread whose ring it came from (oldest first) -/
+def drainAllTagged : List (Nat × Ring Cmd) → List (Nat × Cmd)
+  | [] => []
+  | (t, r) :: rest => r.q.map (fun c => (t, c)) ++ drainAllTagged rest
+
+/-- ghost: the collector popped `q` from thread `t`'s ring -/
+def Sys.logDrained (s : Sys) (t : Nat) (q : List Cmd) : Sys :=
+  s.withG { s.g with drainedBy := (q.map (fun c => (t, c))).reverse ++ s.g.drainedBy }
+
 /-- a whole cycle with nothing in between: the second pass finds the rings empty -/
 def Sys.cycle (s : Sys) : Sys × Option (List Record) :=
   let (kept, buf) := drainAll s.rxs
-  s.finishCycle kept buf []
+  (s.withG { s.g with drainedBy := (drainAllTagged s.rxs).reverse ++ s.g.drainedBy }).finishCycle kept buf []
 
 /-- the first pass is over: the retained receivers are drained once more, or — if none is
     left — processing and report come next -/
@@ -484,10 +499,12 @@ def Sys.cycStep (s : Sys) : Sys × Obs :=
       | [] => ({ s with cyc := some { cs with phase := .atReport } }, .phase "report")
       | t :: rest =>
         let r := (natGet cs.kept t).getD (Ring.new Consts.ringCap)
-        let cs' : CycState := { cs with kept := natSet cs.kept t { r with q := [] }, buf2 := cs.buf2 ++ r.q, todo2 := rest }
+        -- (`todo2` only names retained receivers; for any other name nothing is popped and nothing changes)
+        let kept' := if (natGet cs.kept t).isSome then natSet cs.kept t { r with q := [] } else cs.kept
+        let cs' : CycState := { cs with kept := kept', buf2 := cs.buf2 ++ r.q, todo2 := rest }
         match rest with
-        | [] => ({ s with cyc := some { cs' with phase := .atReport } }, .phase "report")
-        | _ => ({ s with cyc := some cs' }, .phase "rx2")
+        | [] => ({ (s.logDrained t r.q) with cyc := some { cs' with phase := .atReport } }, .phase "report")
+        | _ => ({ (s.logDrained t r.q) with cyc := some cs' }, .phase "rx2")
     | _, [] =>
       let (cs', ph) := cs.afterFirst
       ({ s with cyc := some cs' }, .phase ph)
@@ -495,7 +512,7 @@ def Sys.cycStep (s : Sys) : Sys × Obs :=
       -- pop until the ring is empty; stop at the `ReceiverEmpty` hook
       let r' : Ring Cmd := { r with q := [] }
       let cs' : CycState := { cs with phase := .atEmpty, todo := (t, r') :: rest, buf := cs.buf ++ r.q }
-      ({ s with cyc := some cs' }, .phase "empty")
+      ({ (s.logDrained t r.q) with cyc := some cs' }, .phase "empty")
     | .atEmpty, (t, r) :: rest =>
       if r.producerAlive then
         -- `Ok(None)`: keep the receiver, go on to the next one
@@ -519,7 +536,7 @@ def Sys.cycStep (s : Sys) : Sys × Obs :=
           -- abandoned, but the re-check finds commands: they are popped like any others
           let r' : Ring Cmd := { r with q := [] }
           let cs' : CycState := { cs with phase := .atEmpty, todo := (t, r') :: rest, buf := cs.buf ++ r.q }
-          ({ s with cyc := some cs' }, .phase "empty")
+          ({ (s.logDrained t r.q) with cyc := some cs' }, .phase "empty")
 
 def Sys.cycBegin (s : Sys) : Sys × Obs :=
   match s.cyc with
